@@ -126,6 +126,11 @@ func toMapData(data any) map[string]any {
 	if m, ok := data.(map[string]any); ok {
 		return m
 	}
+	// Any other map with string keys (map[string]string, a named type such as
+	// gin.H): its entries are the variables, in a map of the engine's own
+	if m, ok := reflect.StringKeyedMap(data); ok {
+		return m
+	}
 	// Try to convert struct to map using JSON tags
 	if m := reflect.StructToMap(data); len(m) > 0 {
 		return m
